@@ -311,6 +311,75 @@ if __name__ == "__main__":
     print(open("/tmp/gen_try/MeasImp.lean").read())
 
 
+
+def translate_normalize(repo, gen, write):
+    """Gen/NormImp.lean: `normalize` of opfython/math/general.py, statement by statement, polymorphic in the number type; `np.mean(·, axis=0)`
+    and `np.std(·, axis=0)` are the reductions MEAN / STD applied per column (`Model/PyNorm.lean`)."""
+    rel = "opfython/math/general.py"
+    head = [f"/- GENERATED by tools/translate_meas.py from /repo/{rel} — do not edit. -/", "import OpfVerif.Model.PyNorm",
+            "set_option linter.unusedVariables false", "namespace Opf.Gen.NormImp", "open Opf", ""]
+    try:
+        tree = ast.parse(open(os.path.join(repo, rel)).read())
+        fn = [n for n in tree.body if isinstance(n, ast.FunctionDef) and n.name == "normalize"]
+        if not fn:
+            raise Untranslatable(f"{rel}: normalize not found")
+        f = fn[0]
+
+        def fail(node, msg):
+            raise Untranslatable(f"untranslatable construct at {rel}:{getattr(node, 'lineno', '?')}: {msg}")
+        arg = f.args.args[0].arg
+        env, lines, tmp = {arg: "mat"}, [], [0]
+
+        def expr(e):
+            if isinstance(e, ast.Name):
+                if e.id not in env:
+                    fail(e, f"name {e.id}")
+                return e.id, env[e.id]
+            if isinstance(e, ast.Call) and ast.unparse(e.func) in ("np.mean", "np.std") and len(e.args) == 1 \
+                    and [(k.arg, ast.unparse(k.value)) for k in e.keywords] == [("axis", "0")]:
+                a, ta = expr(e.args[0])
+                if ta != "mat":
+                    fail(e, "reduction of a non-matrix")
+                tmp[0] += 1
+                lines.append(f"  let t{tmp[0]} ← Py.axis0 {'MEAN' if ast.unparse(e.func) == 'np.mean' else 'STD'} {a}")
+                return f"t{tmp[0]}", "vec"
+            if isinstance(e, ast.BinOp) and isinstance(e.op, (ast.Sub, ast.Div)):
+                a, ta = expr(e.left)
+                b, tb = expr(e.right)
+                if ta != "mat" or tb != "vec":
+                    fail(e, "only matrix (op) vector is in the fragment")
+                tmp[0] += 1
+                lines.append(f"  let t{tmp[0]} ← Py.bcast (fun x y => x {'-' if isinstance(e.op, ast.Sub) else '/'} y) {a} {b}")
+                return f"t{tmp[0]}", "mat"
+            fail(e, f"expression {ast.unparse(e)[:60]}")
+        ret = None
+        for st in f.body:
+            if isinstance(st, ast.Expr) and isinstance(st.value, ast.Constant):
+                continue
+            if isinstance(st, ast.Assign) and len(st.targets) == 1 and isinstance(st.targets[0], ast.Name):
+                a, ta = expr(st.value)
+                lines.append(f"  let {st.targets[0].id} := {a}")
+                env[st.targets[0].id] = ta
+                continue
+            if isinstance(st, ast.Return) and st is f.body[-1]:
+                a, ta = expr(st.value)
+                if ta != "mat":
+                    fail(st, "returns a non-matrix")
+                ret = a
+                continue
+            fail(st, f"statement {ast.unparse(st)[:60]}")
+        if ret is None:
+            fail(f, "no return")
+        body = [f"/-- `normalize` ({rel}:{f.lineno}) -/",
+                f"def normalize {{α : Type}} [Inhabited α] [Sub α] [Div α] (MEAN STD : List α → α) ({arg} : Array (Array α)) : Option (Array (Array α)) := do"] + \
+            lines + [f"  pure {ret}", ""]
+        err = None
+    except Untranslatable as ex:
+        body = ['theorem untranslatable : False := by', '  exact (show False from nomatch (⟨⟩ : Unit))  -- ' + str(ex)]
+        err = str(ex)
+    write(os.path.join(gen, "NormImp.lean"), "\n".join(head + body + ["end Opf.Gen.NormImp"]) + "\n")
+    return err
+
 def translate_persist(repo, gen, write):
     """Gen/PersistText.lean: the bodies of `OPF.save` / `OPF.load` as written (logging statements dropped) and the list of
     classes of the package that customise pickling (`__getstate__`, `__setstate__`, `__reduce__`, `__reduce_ex__`,
